@@ -9,8 +9,11 @@ from ..alphabet import session_messages, attr, update_body, PEER_ID
 
 PROP = 'C19'
 CFG = {'rib': True, 'afi_safi': ['ipv4', 'flowspec']}
-M = session_messages()
+M = M_EBGP = session_messages()
 P = {'p1': ('10.1.0.0/16', b'\x10\x0a\x01'), 'p2': ('10.2.3.0/24', b'\x18\x0a\x02\x03')}
+# a prefix whose length is not a multiple of 8: its canonical encoding and two with the don't-care bits set (RFC 4271 4.3:
+# "the value of trailing bits is irrelevant") - all three name the same route
+P3 = ('10.3.2.128/25', {'p3': b'\x19\x0a\x03\x02\x80', 'p3x': b'\x19\x0a\x03\x02\xc0', 'p3y': b'\x19\x0a\x03\x02\xff'})
 FS = {'f1': ({'1': '10.0.1.0/24'}, b'\x01\x18\x0a\x00\x01'), 'f2': ({'1': '10.0.2.0/24', '5': '=80'}, b'\x01\x18\x0a\x00\x02\x05\x81\x50')}
 VPN = {'v1': b'\x70' + b'\x00\x06\x41' + struct.pack('!HHI', 0, 65000, 1) + b'\x0a\x01\x00',
        'v2': b'\x70' + b'\x00\x06\x51' + struct.pack('!HHI', 0, 65000, 2) + b'\x0a\x02\x00'}
@@ -25,9 +28,13 @@ def base_attrs(a, nexthop=True):
     return out
 
 
+def _enc(p):
+    return P[p][1] if p in P else P3[1][p]
+
+
 def upd_v4(ann=(), a=None, wd=()):
-    w = b''.join(P[p][1] for p in wd)
-    n = b''.join(P[p][1] for p in ann)
+    w = b''.join(_enc(p) for p in wd)
+    n = b''.join(_enc(p) for p in ann)
     at = base_attrs(a) if ann else b''
     return wire.frame(wire.UPDATE, update_body(w, at, n))
 
@@ -83,6 +90,14 @@ def ops(group):
             o['rx-ann-p1-wd-p2-%s' % a] = ('rx', upd_v4(['p1'], a, ['p2']), [('in', 'ipv4', 'wd', 'p2', None), ('in', 'ipv4', 'ann', 'p1', a)])
         o['rx-ann-p1p2-a1'] = ('rx', upd_v4(['p1', 'p2'], 'a1'), [('in', 'ipv4', 'ann', 'p1', 'a1'), ('in', 'ipv4', 'ann', 'p2', 'a1')])
         o['rx-wd-p1p2'] = ('rx', upd_v4(wd=['p1', 'p2']), [('in', 'ipv4', 'wd', 'p1', None), ('in', 'ipv4', 'wd', 'p2', None)])
+        for enc in P3[1]:
+            o['rx-ann-%s-a1' % enc] = ('rx', upd_v4([enc], 'a1'), [('in', 'ipv4', 'ann', 'p3', 'a1')])
+        o['rx-wd-p3'] = ('rx', upd_v4(wd=['p3']), [('in', 'ipv4', 'wd', 'p3', None)])
+        o['rx-wd-p3x'] = ('rx', upd_v4(wd=['p3x']), [('in', 'ipv4', 'wd', 'p3', None)])
+        # a malformed UPDATE (ORIGIN of two octets behind the other attributes) changes nothing
+        bad = attr(0x40, 2, struct.pack('!BBI', 2, 1, 65002)) + attr(0x40, 3, b'\x0a\x00\x00\x02') + attr(0x80, 4, struct.pack('!I', 20)) + attr(0x40, 1, b'\x00\x00')
+        o['rx-bad-ann-p1'] = ('rx', wire.frame(wire.UPDATE, update_body(b'', bad, P['p1'][1])), [])
+        o['rx-bad-wd-p1-ann-p2'] = ('rx', wire.frame(wire.UPDATE, update_body(P['p1'][1], bad, P['p2'][1])), [])
         for p in P:
             for a in MEDS:
                 o['send-ann-%s-%s' % (p, a)] = ('rest', {'attr': json_attr(a), 'nlri': [P[p][0]]}, [('out', 'ipv4', 'ann', p, a)])
@@ -95,6 +110,11 @@ def ops(group):
         o['rx-fs-wd-f1f2'] = ('rx', wd_fs2(('f1', 'f2')), [('in', 'flowspec', 'wd', 'f1', None), ('in', 'flowspec', 'wd', 'f2', None)])
         o['rx-fs-wd-f2f1'] = ('rx', wd_fs2(('f2', 'f1')), [('in', 'flowspec', 'wd', 'f2', None), ('in', 'flowspec', 'wd', 'f1', None)])
         o['rx-fs-ann-f1f2-a1'] = ('rx', upd_fs2(('f1', 'f2'), 'a1'), [('in', 'flowspec', 'ann', 'f1', 'a1'), ('in', 'flowspec', 'ann', 'f2', 'a1')])
+        # malformed UPDATEs that carry a flowspec MP_REACH / MP_UNREACH in front of the attribute that does not decode
+        nl = bytes([len(FS['f1'][1])]) + FS['f1'][1]
+        badtail = attr(0x40, 2, struct.pack('!BBI', 2, 1, 65002)) + attr(0x40, 1, b'\x00\x00')
+        o['rx-bad-fs-ann-f1'] = ('rx', wire.frame(wire.UPDATE, update_body(b'', attr(0x80, 14, struct.pack('!HBB', 1, 133, 0) + b'\x00' + nl) + badtail, b'')), [])
+        o['rx-bad-fs-wd-f1'] = ('rx', wire.frame(wire.UPDATE, update_body(b'', attr(0x80, 15, struct.pack('!HB', 1, 133) + nl) + badtail, b'')), [])
         for a in MEDS:
             at = {'1': 0, '2': [], '5': 100, '4': MEDS[a], '14': {'afi_safi': [1, 133], 'nexthop': '', 'nlri': [FS['f1'][0]]}}
             o['send-fs-ann-f1-%s' % a] = ('rest', {'attr': at}, [('out', 'flowspec', 'ann', 'f1', a)])
@@ -104,9 +124,21 @@ def ops(group):
             for a in MEDS:
                 o['rx-vpn-ann-%s-%s' % (v, a)] = ('rx', upd_vpn(v, a), [('in', 'mpls_vpn', 'ann', v, a)])
             o['rx-vpn-wd-%s' % v] = ('rx', wd_vpn(v), [('in', 'mpls_vpn', 'wd', v, None)])
+        nh = b'\x00' * 8 + b'\x0a\x00\x00\x02'
+        badtail = attr(0x40, 2, struct.pack('!BBI', 2, 1, 65002)) + attr(0x40, 1, b'\x00\x00')
+        o['rx-bad-vpn-ann-v1'] = ('rx', wire.frame(wire.UPDATE, update_body(b'', attr(0x80, 14, struct.pack('!HBB', 1, 128, len(nh)) + nh + b'\x00' + VPN['v1']) + badtail, b'')), [])
+        wv = VPN['v1'][:1] + b'\x80\x00\x00' + VPN['v1'][4:]
+        o['rx-bad-vpn-wd-v1'] = ('rx', wire.frame(wire.UPDATE, update_body(b'', attr(0x80, 15, struct.pack('!HB', 1, 128) + wv) + badtail, b'')), [])
         both = b''.join((VPN[v][:1] + b'\x80\x00\x00' + VPN[v][4:]) for v in ('v1', 'v2'))
         o['rx-vpn-wd-v1v2'] = ('rx', wire.frame(wire.UPDATE, update_body(b'', attr(0x80, 15, struct.pack('!HB', 1, 128) + both), b'')),
                                [('in', 'mpls_vpn', 'wd', 'v1', None), ('in', 'mpls_vpn', 'wd', 'v2', None)])
+    if group == 'ibgp':
+        # iBGP session: the REST view adds the default LOCAL_PREF; a repeated identical request changes nothing
+        for a in MEDS:
+            o['send-ann-p1-%s' % a] = ('rest', {'attr': json_attr(a), 'nlri': [P['p1'][0]]}, [('out', 'ipv4', 'ann', 'p1', a)])
+            o['send-ann-p1-%s-lp100' % a] = ('rest', {'attr': dict(json_attr(a), **{'5': 100}), 'nlri': [P['p1'][0]]}, [('out', 'ipv4', 'ann', 'p1', a)])
+        o['send-wd-p1'] = ('rest', {'withdraw': [P['p1'][0]]}, [('out', 'ipv4', 'wd', 'p1', None)])
+        o['rx-ann-p1-a1'] = ('rx', upd_v4(['p1'], 'a1'), [('in', 'ipv4', 'ann', 'p1', 'a1')])
     o['DROP'] = ('drop', 'peer-close', [('drop',)])
     o['DROP-notification'] = ('drop', 'notification', [('drop',)])     # the agent closes (peer sent a NOTIFICATION)
     o['DROP-stop-start'] = ('drop', 'stop-start', [('drop',)])         # the operator stops and starts the peer
@@ -191,10 +223,19 @@ def observe(w):
     return out
 
 
+M_IBGP = session_messages(remote_as=65001)
+
+
 def run_history(group, hist):
     """returns (violations at the last step, model key, exceptions)"""
+    global M
     O = ops(group)
-    w = W.AgentWorld(CFG)
+    if group == 'ibgp':
+        w = W.AgentWorld(dict(CFG, remote_as=65001))
+        M = M_IBGP
+    else:
+        w = W.AgentWorld(CFG)
+        M = M_EBGP
     establish(w)
     model = Model()
     base = {('in', f): 0 for f in ('ipv4', 'flowspec', 'sr_policy', 'mpls_vpn')}
@@ -228,7 +269,7 @@ def run_history(group, hist):
         after = observe(w)
         cls = name if kind == 'drop' else '-'.join(name.split('-')[:3 if ('fs' in name or 'vpn' in name) else 2])
         # Adj-RIB-In equals the model
-        want_in = {P[k][0]: MEDS[a] for k, a in model.tab[('in', 'ipv4')].items()}
+        want_in = {(P[k][0] if k in P else P3[0]): MEDS[a] for k, a in model.tab[('in', 'ipv4')].items()}
         if after['rib_in'] != want_in:
             viol.append(('C19|Adj-RIB-In differs from the model after %s' % cls, {'want': want_in, 'got': after['rib_in']}))
         want_out = {P[k][0]: MEDS[a] for k, a in model.tab[('out', 'ipv4')].items()}
@@ -265,11 +306,11 @@ def expand(args):
 def run(tier, seed):
     tm = report.Timer()
     col = report.Collector(PROP)
-    depth = {'quick': {'ipv4': 4, 'flowspec': 4, 'vpn': 4, 'mixed': 4}, 'thorough': {'ipv4': 6, 'flowspec': 7, 'vpn': 7, 'mixed': 7}}[tier]
+    depth = {'quick': {'ipv4': 4, 'flowspec': 4, 'vpn': 4, 'mixed': 4, 'ibgp': 4}, 'thorough': {'ipv4': 6, 'flowspec': 7, 'vpn': 7, 'mixed': 7, 'ibgp': 7}}[tier]
     states = transitions = 0
     samples = []
     levels = {}
-    for group in ('ipv4', 'flowspec', 'vpn', 'mixed'):
+    for group in ('ipv4', 'flowspec', 'vpn', 'mixed', 'ibgp'):
         seen = {Model().key(): ()}
         frontier = [()]
         for d in range(depth[group]):
@@ -295,7 +336,7 @@ def run(tier, seed):
         'states': states, 'transitions': transitions, 'traces_validated_against_impl': transitions,
         'samples': samples, 'max_depth': depth, 'new_states_per_level': levels,
         'explanation': 'operation alphabets per family group (received announce / withdraw / announce+withdraw / re-announce same and '
-                       'different attributes over 2 prefixes, 2 flowspec rules, 2 VPNv4 routes; REST send/update of the same shapes; '
+                       'different attributes over 2 prefixes (+ one non-octet prefix in its canonical and two trailing-bit encodings), 2 flowspec rules, 2 VPNv4 routes; malformed UPDATEs carrying the same routes (no effect allowed); an iBGP group with repeated identical sends with and without LOCAL_PREF; REST send/update of the same shapes; '
                        'DROP = peer closes and the cooperative script re-establishes); all sequences to the stated depth de-duplicated '
                        'on (dictionary model state, last operation); after every operation Adj-RIB-In/Out and the per-family version increments '
                        '(read through GET version/<action> and POST adj-rib-out) must equal the model\'s',
